@@ -489,4 +489,29 @@ theorem roundRat_congr (neg : Bool) (n d n' d' : ℕ) (hn : n ≠ 0) (hd : d ≠
   have e2 : (divPow2 n d (expOf n d)).2 = (divPow2 n' d' (expOf n d)).2 := isC_unique c1 c2
   rw [Prod.ext e1 e2]
 
+/-- **`roundRat` in the subnormal range**: the quotient at exponent -1074 has fewer than 53 bits -/
+theorem roundRat_sub (neg : Bool) (n d : ℕ) (hn : n ≠ 0) (hd : d ≠ 0) (q c : ℕ)
+    (hq : IsQ ((n : ℚ) / d) (-1074) q) (hc : IsC ((n : ℚ) / d) (-1074) q c) (h52 : q < 2 ^ 52) :
+    roundRat neg n d = roundAt neg (q, c) (-1074) := by
+  have hdp := Nat.pos_of_ne_zero hd
+  obtain ⟨a, b⟩ := expPre_spec n d hn hd
+  have hqp := (divPow2_spec n d hdp (expPre n d)).1
+  obtain ⟨l, _⟩ := isQ_normal_bounds hqp a b
+  -- x < 2^52 · 2^-1074, so the 53-bit exponent is below -1074
+  have hp := two_zpow_pos (-1074)
+  have hx : (n : ℚ) / d < 2 ^ (52 + (-1074 : ℤ)) := by
+    have hb : (q : ℚ) + 1 ≤ 2 ^ 52 := by exact_mod_cast h52
+    calc (n : ℚ) / d < ((q : ℚ) + 1) * 2 ^ (-1074 : ℤ) := hq.2
+      _ ≤ 2 ^ 52 * 2 ^ (-1074 : ℤ) := mul_le_mul_of_nonneg_right hb hp.le
+      _ = 2 ^ (52 + (-1074 : ℤ)) := by rw [zpow_add₀ (by norm_num)]; norm_cast
+  have hlt : 52 + expPre n d < 52 + (-1074 : ℤ) := zpow_two_lt (lt_of_le_of_lt l hx)
+  have hE : expOf n d = -1074 := by
+    rw [expOf_pre, if_pos (by omega)]
+  obtain ⟨sq, sc⟩ := divPow2_spec n d hdp (-1074)
+  have e1 : (divPow2 n d (-1074)).1 = q := isQ_unique sq hq
+  rw [e1] at sc
+  have e2 : (divPow2 n d (-1074)).2 = c := isC_unique sc hc
+  have hpair : divPow2 n d (-1074) = (q, c) := Prod.ext e1 e2
+  rw [roundRat_unfold neg n d hn hd, hE, hpair]
+
 end RJson.RoundRat
